@@ -59,6 +59,7 @@ func ProfileFor(prop, tier string, r *Rng) *Profile {
 	case "C08", "C09":
 		scale(4, KNewObserver, KRegObs, KUnregObs, KEmit)
 		scale(3, KUnregObs, KRegObs)
+		scale(2.5, KNewBatch)
 		scale(2, KAddBatch, KRemoveBatch, KExchangeBatch, KSetRelBatch, KRemoveEntities, KExchange, KSetRel)
 		scale(0.3, KMisuse, KOpenQuery)
 	case "C10":
